@@ -451,6 +451,7 @@ func sections(r *vk.Run) []section {
 	secs = append(secs, seqSection(r), trySection(r), compoundSection(r), limitSection(), slotSection(r), freshSection(), freshCompoundSection(),
 		sameItemSection(), setitemBufferSection(), structEqualSection(), preGorgonSection(), hostSection())
 	secs = append(secs, layoutSections(r)...)
+	secs = append(secs, budgetSections(r)...)
 	// cheap and diverse sections first, the big sweeps last (the deadline, if
 	// it ever strikes, then cuts the most redundant part).
 	order := map[string]int{"nullary": 0, "limits": 1, "unary": 2, "memcpy": 3, "big-values": 4, "try-nests(depth2)": 5}
@@ -459,7 +460,7 @@ func sections(r *vk.Run) []section {
 			return k
 		}
 		switch {
-		case strings.HasPrefix(s.name, "layout-"):
+		case strings.HasPrefix(s.name, "layout-"), strings.HasPrefix(s.name, "budget-"):
 			return 5
 		case strings.HasPrefix(s.name, "compound"):
 			if r.Thorough() {
